@@ -52,6 +52,12 @@ type ctx struct {
 	boundaryRefused    int64 // refused by a declared limit (control length refused as well)
 	boundaryNotCarried int64 // field not carried by the variant
 
+	numeric           int64 // numeric-boundary cases that round-tripped
+	numericRefused    int64 // refused/misparsed together with the neighbouring value (validated field)
+	numericNotCarried int64
+	numericTruncated  int64 // Go type wider than the wire field: value aliases a smaller one
+	truncFields       map[string]bool
+
 	mu       sync.Mutex
 	distinct map[string]bool
 	// payload field survival over all variants: "Type.Field" → survived somewhere / seen populated
@@ -732,7 +738,7 @@ func main() {
 	scr := evid.Scratch("c04")
 	defer os.RemoveAll(scr)
 	hx.QuietLogs(scr)
-	c := &ctx{r: r, distinct: map[string]bool{}, survived: map[string]bool{}, seen: map[string]bool{}, dropped: map[string]map[string]bool{}, samples: &evid.Samples{N: 6}}
+	c := &ctx{r: r, distinct: map[string]bool{}, survived: map[string]bool{}, seen: map[string]bool{}, dropped: map[string]map[string]bool{}, truncFields: map[string]bool{}, samples: &evid.Samples{N: 6}}
 
 	if r.Replay != "" {
 		replay(c)
@@ -762,6 +768,16 @@ func main() {
 		bc := bc
 		c.guard("boundary", bc.name, func() { c.runBoundary(bc) })
 	}
+	par.Go(len(bpar), func(i int) { c.guard("numeric", bpar[i].name, func() { c.runNumeric(bpar[i]) }) })
+	for _, bc := range bseq {
+		bc := bc
+		c.guard("numeric", bc.name, func() { c.runNumeric(bc) })
+	}
+	var truncFields []string
+	for k := range c.truncFields {
+		truncFields = append(truncFields, k)
+	}
+	sort.Strings(truncFields)
 
 	// field survival: every exported payload field that was populated must come back in at
 	// least one variant of its payload type
@@ -832,6 +848,11 @@ func main() {
 		"boundary_length_roundtrips":          c.boundary,
 		"boundary_length_refused_by_limit":    c.boundaryRefused,
 		"boundary_length_field_not_carried":   c.boundaryNotCarried,
+		"numeric_boundary_roundtrips":         c.numeric,
+		"numeric_refused_validated_field":     c.numericRefused,
+		"numeric_field_not_carried":           c.numericNotCarried,
+		"numeric_not_representable":           c.numericTruncated,
+		"numeric_fields_wider_than_wire":      truncFields,
 		"payload_fields_seen":                 len(c.seen),
 		"payload_fields_variant_dependent":    droppedSome,
 		"payload_versions_not_implemented":    unsup,
